@@ -262,10 +262,11 @@ def run(ctx: Ctx):
     _E3 = _C03.Engine(ctx.root, False)
     _pres, _load, _mat, _tus = _all_states(_E3.t, False)
     ctx.floor("cache-discipline cases", _C03.cache_discipline(ctx, _E3, _mkstate(_pres[0], _load[0], _mat[0], _tus[0]), prop="C11"), 30)
-    from ..sites import conversions_drop_caches as _cdc
-    ctx.rule("S-fresh (conversions): every permanent conversion drops the interpolator caches unconditionally - the last partial segment of "
-             "spreading_pressure_at reads loading_at, which after a unit-only conversion would still interpolate the old numbers")
-    _cdc(ctx, load(ctx.root), "C11", "S-fresh")
+    from .C02 import cache_reset_for as _crf
+    ctx.rule("S-fresh (conversions): after every permanent conversion that changed the stored numbers both interpolator caches are gone - the "
+             "last partial segment of spreading_pressure_at reads loading_at, which after a unit-only conversion would still interpolate the old "
+             "numbers (conversions interpreted on isotherms holding cached interpolators; shared with C02 R-reset)")
+    _crf(ctx, "C11", "S-fresh")
     ctx.rule("S-iso: ModelIsotherm.spreading_pressure_at evaluates the model at the pressure converted to the stored representation "
              "(every stored pressure representation x requested mode / unit; the accessor interpretation of C03 restricted to this method)")
     from .C03 import accessors_for
